@@ -544,6 +544,8 @@ def check(ctx: Ctx) -> None:
 
 R, B, U, PF = "pipefunc/map/_run.py", "pipefunc/_pipeline/_base.py", "pipefunc/_utils.py", "pipefunc/_pipefunc.py"
 MUTANTS = [
+    Mutant("cache-typeerror-retries-user-function", "pipefunc/map/_run.py", "    result = compute_fn()\n    if isinstance(cache, HybridCache):\n        cache.put(cache_key, result, time.monotonic() - t)\n    else:\n        cache.put(cache_key, result)\n    return result\n",
+           "    try:\n        result = compute_fn()\n    except TypeError:\n        return compute_fn()\n    if isinstance(cache, HybridCache):\n        cache.put(cache_key, result, time.monotonic() - t)\n    else:\n        cache.put(cache_key, result)\n    return result\n", ("C13.3-no-swallow",), why="round-8 seed C13/22"),
     Mutant("snapshot-stdlib-pickle", "pipefunc/_pipefunc.py", "            cloudpickle.dump(self, f)\n", "            import pickle\n\n            pickle.dump(self, f)\n", ("C13.4-snapshot",), why="round-6 seed C13/16"),
     Mutant("local-ip-catches-too-little", "pipefunc/_utils.py", "    except Exception:  # noqa: BLE001  # pragma: no cover\n        return \"unknown\"\n", "    except (socket.gaierror, socket.timeout):  # pragma: no cover\n        return \"unknown\"\n", ("C13.4-snapshot",), why="round-4 seed C13/12"),
     Mutant("success-clears-snapshot", PF, "            try:\n                result = self.func(*args, **kwargs)\n", "            self.error_snapshot = None\n            try:\n                result = self.func(*args, **kwargs)\n", ("C13.4-snapshot",), why="round-2 seed C13/5"),
